@@ -56,6 +56,10 @@ func scenC18(r *Run, job *Job) {
 	hookWork := []time.Duration{0, hook / 2, hook - time.Millisecond}[t.Draw(3)] // how long the hook runs when it completes
 	overrunBy := []time.Duration{time.Millisecond, 100 * time.Millisecond, 2 * time.Second}[t.Draw(3)]
 	nRestores := 1 + t.Draw(2)
+	if mode == "overrun" && t.Chance(1, 4) {
+		// boundary: a hook timeout of 0 ms - a runtime that does not answer at once has overrun it
+		hook = 0
+	}
 	var script []Op
 	switch mode {
 	case "hook-ok":
